@@ -707,6 +707,28 @@ def run(ctx: Ctx) -> int:
     ok = bool(good_cf)
     ctx.oblige("C03.R9", ok, good_cf[0] if good_cf else cvk, "a value for the config-file key that is not a list is rejected with TypeError" if ok else "_check_value_key stores any value under the key of the config-file option: a config that contains that key with a scalar (--cfg 'cfg: 3') makes apply_config call .append on it - AttributeError out of parse_args", fn=cvk, construct="config-file key holds a list")
 
+    # ---------------- R12: implicit ValueErrors of the library's own making ------------------------------------------
+    # (1) split_key returns ALL components of a key: unpacking its result into a fixed number of names raises
+    #     ValueError('too many values to unpack') for a deeper key; two-way splits use split_key_root / split_key_leaf
+    n_unpack = 0
+    for fq, fn in list(repo.all_funcs()):
+        for s_ in walk_local(fn):
+            if isinstance(s_, ast.Assign) and isinstance(s_.targets[0], ast.Tuple) and isinstance(s_.value, ast.Call) and call_leaf(s_.value) in ("split_key", "split_key_root", "split_key_leaf"):
+                n_unpack += 1
+                ok = call_leaf(s_.value) != "split_key"
+                ctx.oblige("C03.R12", ok, s_, f"`{src(s_, 50)}` unpacks a two-way split" if ok else f"`{src(s_, 60)}` unpacks ALL components of the key into {len(s_.targets[0].elts)} names: an unknown key nested two levels below a sub-command (fit: {{modle: {{lr: 1}}}}) raises ValueError('too many values to unpack') instead of the unknown-key error", fn=fn)
+    ctx.floor("C03.R12-key-unpackings", n_unpack, 3)
+    # (2) the config read mode is a string of UNIQUE flags (Path rejects a flag that occurs twice with ValueError):
+    #     a flag is added only if it is not in the mode yet
+    scm = ctx.func("_optionals:set_config_read_mode")
+    adds = [s_ for s_ in walk_local(scm, include_nested=True) if isinstance(s_, ast.Assign) and isinstance(s_.value, ast.Call) and call_leaf(s_.value) == "replace" and len(s_.value.args) == 2 and isinstance(s_.value.args[1], ast.BinOp)]
+    ctx.need(adds, "set_config_read_mode: mode = mode.replace('f', 'f' + flag)")
+    for s_ in adds:
+        fnode = enclosing_function(s_)
+        at = guard_atoms(s_, stop=fnode)
+        ok = any(not pol and isinstance(t, ast.Compare) and isinstance(t.ops[0], ast.In) and ast.unparse(t.comparators[0]) == ast.unparse(s_.targets[0]) for t, pol in at)
+        ctx.oblige("C03.R12", ok, s_, "a read-mode flag is added only when the mode does not have it" if ok else "set_config_read_mode adds a flag that the mode already has: after enabling an enabled mode twice the mode is 'fuur' and EVERY later --cfg value (a good file, a missing file, a string) raises ValueError('Too many occurrences (2) for flag \"u\"') out of parse_args", fn=fnode, construct="read-mode flags unique")
+
     # ---------------- R10: switches read from the environment are compared case-insensitively -------------------------
     n_envsw = 0
     for fq, fn in list(repo.all_funcs()):
